@@ -260,3 +260,609 @@ def gen_c04(rng, tier):
             s.add("c%s cleanup %d" % (w, c)); s.add("c%s cleanup %d" % (w, c2))
         scripts.append(("tweak histories skinny%s" % w, s.text(), meta))
     return scripts
+
+# ---------------------------------------------------------------- C05 / C06
+CTRK = {"c128": ("128", 16), "c64": ("64", 8), "mc": (None, 8)}
+BATCH = {("c128", "def"): 1, ("c128", "v128"): 4, ("c128", "v256"): 8,
+         ("c64", "def"): 1, ("c64", "v128"): 8, ("c64", "v256"): 8,
+         ("mc", "def"): 1, ("mc", "v128"): 8, ("mc", "v256"): 8}
+
+def carry_counters(rng, bs):
+    """counters whose low k bytes are 0xff (carry through every byte, wrap-around), short, NULL"""
+    out = []
+    for k in range(bs + 1):
+        c = bytearray(rbytes(rng, bs))
+        for i in range(k):
+            c[bs - 1 - i] = 0xff
+        if k < bs and c[bs - 1 - k] == 0xff:
+            c[bs - 1 - k] = 0x7f
+        out.append((bytes(c), bs))
+        if k >= 1:
+            c2 = bytes(c[bs - k:]); out.append((c2[:-1] + bytes([0xfe - rng.randrange(0, 9)]), k))
+    out.append((b"", 0)); out.append((None, bs)); out.append((None, 0))
+    for n in range(bs + 1):
+        out.append((rbytes(rng, n), n))
+    return out
+
+def cut_list(rng, total, bsz, Bsz):
+    """ways of cutting `total` bytes into calls, aimed at the loop's case splits"""
+    style = rng.randrange(7)
+    cuts = []
+    left = total
+    if style == 0:
+        return [total]
+    while left > 0:
+        if style == 1: n = 1
+        elif style == 2: n = rng.choice([0, 1, bsz - 1, bsz, bsz + 1])
+        elif style == 3: n = rng.choice([Bsz - 1, Bsz, Bsz + 1, 2 * Bsz, 0])
+        elif style == 4: n = rng.randint(0, 3 * Bsz)
+        elif style == 5: n = rng.choice([0, 0, 1, 2, 3, rng.randint(1, bsz)])
+        else: n = rng.randint(1, max(1, left))
+        n = max(0, min(n, left))
+        cuts.append(n); left -= n
+        if len(cuts) > 400:
+            cuts.append(left); break
+    if rng.random() < 0.3:
+        cuts.append(0)
+    return cuts
+
+def ctr_setkey_lines(rng, kind, obj, tweaked_ok=True):
+    """key (and tweak) in place; returns the lines"""
+    w, bs = CTRK[kind]
+    L = []
+    if kind == "mc":
+        L.append("mc setkey %d %s 16 %d" % (obj, hexs(rbytes(rng, 16)), rng.randint(5, 8)))
+        if rng.random() < 0.6:
+            L.append("mc settweak %d %s 8" % (obj, hexs(rbytes(rng, 8))))
+    elif tweaked_ok and rng.random() < 0.4:
+        ksz = rng.choice([bs, 2 * bs])
+        L.append("%s settk %d %s %d" % (kind, obj, hexs(rbytes(rng, ksz)), ksz))
+        if rng.random() < 0.7:
+            tl = rng.randint(1, bs)
+            L.append("%s settweak %d %s %d" % (kind, obj, hexs(rbytes(rng, tl)), tl))
+    else:
+        ksz = rng.choice([bs, 2 * bs, 3 * bs])
+        L.append("%s setkey %d %s %d" % (kind, obj, hexs(rbytes(rng, ksz)), ksz))
+    return L
+
+def gen_c05_one(rng, kind, be, tier, with_rekey=False, with_invalid=False):
+    """one CTR object on a pinned back end: streams from init / set_counter, cut in many ways.
+    meta: list of ('stream', [lines of the calls], reference line) — the concatenated output of
+    the calls must equal the output of one big call on a twin object."""
+    w, bs = CTRK[kind]
+    B = BATCH[(kind, be)]
+    s = S(); meta = []
+    s.add("cfg backend " + be)
+    a = s.new(kind); b = s.new(kind)
+    s.add("%s init %d" % (kind, a)); s.add("%s init %d" % (kind, b))
+    s.add("%s which %d" % (kind, a))
+    n = 10 if tier == "quick" else 60
+    ctrs = carry_counters(rng, bs)
+    rng.shuffle(ctrs)
+    first = True
+    for it in range(n):
+        keyl = ctr_setkey_lines(rng, kind, a)
+        for l in keyl:
+            s.add(l); s.add(l.replace(" %d " % a, " %d " % b, 1))
+        if first:
+            first = False              # the very first stream starts from the post-init counter (zero)
+        else:
+            c, cn = ctrs[it % len(ctrs)]
+            l = "%s setctr %d %s %d" % (kind, a, "-" if c is None else hexs(c), cn)
+            s.add(l); s.add(l.replace(" %d " % a, " %d " % b, 1))
+        total = rng.choice([0, 1, bs - 1, bs, bs + 1, B * bs - 1, B * bs, B * bs + 1, 2 * B * bs + 3,
+                            rng.randint(0, 4 * B * bs + 5), rng.randint(0, 700 if tier == "quick" else 5000)])
+        data = rbytes(rng, total) if rng.random() < 0.7 else bytes(total)
+        ref = s.add("%s crypt %d %s %d" % (kind, b, hexs(data), total))
+        calls = []; pos = 0
+        for c_ in cut_list(rng, total, bs, B * bs):
+            opt = rng.choice(["", "", " inplace", " ai=%d ao=%d" % (rng.randrange(32), rng.randrange(32))])
+            calls.append(s.add("%s crypt %d %s %d%s" % (kind, a, hexs(data[pos:pos + c_]), c_, opt)))
+            pos += c_
+            if with_invalid and rng.random() < 0.15:
+                s.add(rng.choice(["%s crypt %d - 5" % (kind, a), "%s crypt %d 0011 2 outnull" % (kind, a),
+                                  "%s setctr %d 00 %d" % (kind, a, bs + 1), "%s crypt - 00 1" % kind,
+                                  "%s setkey %d - %d" % (kind, a, bs) if kind != "mc" else "mc setkey %d - 16 5" % a]))
+        meta.append(("stream", calls, ref))
+        if with_rekey and rng.random() < 0.6:
+            # key or tweak change in the middle of the stream, no counter set: see C06 / known finding
+            for l in ctr_setkey_lines(rng, kind, a):
+                s.add(l); s.add(l.replace(" %d " % a, " %d " % b, 1))
+            m = rng.randint(1, 3 * B * bs)
+            d2 = rbytes(rng, m)
+            x = s.add("%s crypt %d %s %d" % (kind, a, hexs(d2), m))
+            meta.append(("rekey", x, total))
+            s.add("%s crypt %d %s %d" % (kind, b, hexs(d2), m))
+    s.add("%s cleanup %d" % (kind, a)); s.add("%s cleanup %d" % (kind, b))
+    return ("%s on %s" % (kind, be), s.text(), meta)
+
+def backends_for(kind, has128=True, has256=True):
+    l = ["def"]
+    if has128: l.append("v128")
+    if has256 and kind == "c128": l.append("v256")
+    return l
+
+def gen_c05(rng, tier):
+    out = []
+    for kind in ("c128", "c64", "mc"):
+        for be in backends_for(kind):
+            for rep in range(1 if tier == "quick" else 4):
+                out.append(gen_c05_one(rng, kind, be, tier))
+    return out
+
+def gen_c06(rng, tier):
+    """back-end neutral scripts (no cfg line): the caller prefixes `cfg backend X` and compares the
+    outputs of all back ends with each other"""
+    out = []
+    for kind in ("c128", "c64", "mc"):
+        for rep in range(2 if tier == "quick" else 8):
+            t, sc, meta = gen_c05_one(rng, kind, "def", tier, with_rekey=(rep % 2 == 1), with_invalid=True)
+            body = "\n".join(sc.splitlines()[1:]) + "\n"           # drop the cfg line; the caller puts its own back
+            out.append(("%s history %d%s" % (kind, rep, " (with mid-stream rekey)" if rep % 2 else ""), body,
+                        [m for m in meta if m[0] == "rekey"]))
+    for pk in ("p128", "p64", "mp"):
+        for rep in range(1 if tier == "quick" else 4):
+            t, sc, meta = gen_c07_one(rng, pk, tier, with_invalid=True)
+            out.append(("%s history %d" % (pk, rep), sc, []))     # the caller prefixes one cfg line
+    return out
+
+# ---------------------------------------------------------------- C07
+def gen_c07_one(rng, pk, tier, with_invalid=False):
+    """parallel ECB against the single-block functions, block count 0..3B+1 and larger.
+    meta: ('blocks', parallel line, [single-block lines])"""
+    s = S(); meta = []
+    if pk == "mp":
+        bs = 8; p = s.new("mp"); k = s.new("mk")
+        s.add("mp init %d" % p); s.add("mp psize %d" % p); s.add("mp which %d" % p)
+        counts = list(range(0, 27)) + [rng.randint(27, 80) for _ in range(2 if tier == "quick" else 10)]
+        rng.shuffle(counts)
+        for nb in counts[: (14 if tier == "quick" else 10**6)]:
+            key = rbytes(rng, 16); r = rng.randint(5, 8); mode = rng.randint(0, 1)
+            s.add("mp setkey %d %s 16 %d %d" % (p, hexs(key), r, mode))
+            s.add("mk setkey %d %s 16 %d %d" % (k, hexs(key), r, mode))
+            data = rbytes(rng, nb * bs); tws = rbytes(rng, nb * bs)
+            opt = rng.choice(["", " inplace", " ai=%d ao=%d" % (rng.randrange(32), rng.randrange(32))])
+            pl = s.add("mp crypt %d %s %s %d%s" % (p, hexs(data), hexs(tws), nb * bs, opt))
+            singles = [s.add("mk cryptt %d %s %s" % (k, hexs(data[i*bs:(i+1)*bs]), hexs(tws[i*bs:(i+1)*bs])))
+                       for i in range(nb)]
+            meta.append(("blocks", pl, singles))
+            if with_invalid and rng.random() < 0.3:
+                bad = nb * bs + rng.randint(1, bs - 1)
+                s.add("mp crypt %d %s %s %d" % (p, hexs(bytes((bad // bs + 1) * bs)), hexs(bytes((bad // bs + 1) * bs)), bad))
+                s.add("mp setkey %d %s 15 %d 1" % (p, hexs(bytes(15)), r))
+        s.add("mp cleanup %d" % p)
+        return ("mp", s.text(), meta)
+    w = pk[1:]; bs = BS[w]
+    p = s.new(pk); k = s.new("k" + w)
+    s.add("%s init %d" % (pk, p)); s.add("%s psize %d" % (pk, p)); s.add("%s which %d" % (pk, p))
+    counts = list(range(0, 27)) + [rng.randint(27, 80) for _ in range(2 if tier == "quick" else 10)]
+    rng.shuffle(counts)
+    for nb in counts[: (14 if tier == "quick" else 10**6)]:
+        ksz = rng.choice([bs, 2 * bs, 3 * bs, rng.randint(bs, 3 * bs)])
+        key = rbytes(rng, ksz)
+        s.add("%s setkey %d %s %d" % (pk, p, hexs(key), ksz))
+        s.add("k%s setkey %d %s %d" % (w, k, hexs(key), ksz))
+        data = rbytes(rng, nb * bs)
+        for d in ("enc", "dec"):
+            opt = rng.choice(["", " inplace", " ai=%d ao=%d" % (rng.randrange(32), rng.randrange(32))])
+            pl = s.add("%s %s %d %s %d%s" % (pk, d, p, hexs(data), nb * bs, opt))
+            singles = [s.add("k%s %s %d %s" % (w, d, k, hexs(data[i*bs:(i+1)*bs]))) for i in range(nb)]
+            meta.append(("blocks", pl, singles))
+        if with_invalid and rng.random() < 0.3:
+            bad = nb * bs + rng.randint(1, bs - 1)
+            s.add("%s enc %d %s %d" % (pk, p, hexs(bytes((bad // bs + 1) * bs)), bad))
+            s.add("%s setkey %d %s %d" % (pk, p, hexs(bytes(bs - 1)), bs - 1))
+    s.add("%s cleanup %d" % (pk, p))
+    return (pk, s.text(), meta)
+
+def gen_c07(rng, tier):
+    out = []
+    for pk in ("p128", "p64", "mp"):
+        for be in (["def", "v128", "v256"] if pk == "p128" else ["def", "v128"]):
+            for rep in range(1 if tier == "quick" else 3):
+                t, sc, meta = gen_c07_one(rng, pk, tier)
+                out.append(("%s on %s" % (pk, be), "cfg backend %s\n" % be + sc,
+                            [(m[0], m[1] + 1, [x + 1 for x in m[2]]) for m in meta]))
+    return out
+
+# ---------------------------------------------------------------- C09
+def gen_c09(rng, tier):
+    """every pointer argument at every alignment, exact-size buffers, overlap offsets, in place,
+    all lengths; run on an ASan+UBSan build and a plain build"""
+    out = []
+    for w in ("128", "64"):
+        bs = BS[w]
+        s = S()
+        k = s.new("k" + w); t = s.new("t" + w)
+        s.add("k%s setkey %d %s %d" % (w, k, hexs(rbytes(rng, 2 * bs)), 2 * bs))
+        s.add("t%s settk %d %s %d" % (w, t, hexs(rbytes(rng, bs)), bs))
+        blk = rbytes(rng, bs)
+        for a in range(32):
+            s.add("k%s enc %d %s ai=%d ao=%d" % (w, k, hexs(blk), a, (a * 7 + 3) % 32))
+            s.add("k%s dec %d %s ai=%d ao=%d" % (w, k, hexs(blk), (a * 5 + 1) % 32, a))
+        for d in range(-(bs - 1), bs):
+            s.add("k%s enc %d %s ovl=%d ai=%d" % (w, k, hexs(blk), d, rng.randrange(32)))
+            s.add("k%s dec %d %s ovl=%d ai=%d" % (w, k, hexs(blk), d, rng.randrange(32)))
+            s.add("t%s enc %d %s ovl=%d" % (w, t, hexs(blk), d))
+        for n in range(0, 3 * bs + 2):          # every key length, exact-size buffers
+            s.add("k%s setkey %d %s %d" % (w, k, hexs(rbytes(rng, n)), n))
+            s.add("t%s settk %d %s %d" % (w, t, hexs(rbytes(rng, n)), n))
+            if n <= bs + 1:
+                s.add("t%s settweak %d %s %d" % (w, t, hexs(rbytes(rng, n)), n))
+        out.append(("skinny%s single block placement" % w, s.text()))
+    s = S()
+    m = s.new("mk")
+    s.add("mk setkey %d %s 16 7 1" % (m, hexs(rbytes(rng, 16))))
+    blk = rbytes(rng, 8); tw = rbytes(rng, 8)
+    for a in range(32):
+        s.add("mk crypt %d %s ai=%d ao=%d" % (m, hexs(blk), a, (a * 11 + 5) % 32))
+        s.add("mk cryptt %d %s %s ai=%d ao=%d" % (m, hexs(blk), hexs(tw), (a * 3 + 2) % 32, a))
+    for d in range(-7, 8):
+        s.add("mk crypt %d %s ovl=%d" % (m, hexs(blk), d))
+        s.add("mk cryptt %d %s %s ovl=%d" % (m, hexs(blk), hexs(tw), d))
+    out.append(("mantis single block placement", s.text()))
+    for kind in ("c128", "c64", "mc"):
+        w, bs = CTRK[kind]
+        for be in backends_for(kind):
+            B = BATCH[(kind, be)]
+            s = S()
+            s.add("cfg backend " + be)
+            c = s.new(kind); s.add("%s init %d" % (kind, c))
+            for l in ctr_setkey_lines(rng, kind, c): s.add(l)
+            for n in range(0, bs + 1):
+                s.add("%s setctr %d %s %d" % (kind, c, hexs(rbytes(rng, n)), n))
+            lens = list(range(0, 3 * B * bs + 2)) if tier != "quick" else \
+                sorted(set(list(range(0, 2 * bs + 2)) + [B * bs - 1, B * bs, B * bs + 1, 2 * B * bs - 1, 2 * B * bs,
+                                                          2 * B * bs + 1, 3 * B * bs, 3 * B * bs + 1]))
+            for n in lens:
+                d = rbytes(rng, n)
+                s.add("%s crypt %d %s %d ai=%d ao=%d" % (kind, c, hexs(d), n, rng.randrange(32), rng.randrange(32)))
+                s.add("%s crypt %d %s %d inplace ai=%d" % (kind, c, hexs(d), n, rng.randrange(32)))
+            s.add("%s cleanup %d" % (kind, c))
+            out.append(("%s on %s buffer extents" % (kind, be), s.text()))
+    for pk in ("p128", "p64", "mp"):
+        for be in (["def", "v128", "v256"] if pk == "p128" else ["def", "v128"]):
+            bs = 16 if pk == "p128" else 8
+            s = S()
+            s.add("cfg backend " + be)
+            p = s.new(pk); s.add("%s init %d" % (pk, p))
+            if pk == "mp":
+                s.add("mp setkey %d %s 16 6 1" % (p, hexs(rbytes(rng, 16))))
+            else:
+                s.add("%s setkey %d %s %d" % (pk, p, hexs(rbytes(rng, bs + 3)), bs + 3))
+            for nb in range(0, 26 if tier == "quick" else 50):
+                d = rbytes(rng, nb * bs)
+                for opt in ("ai=%d ao=%d" % (rng.randrange(32), rng.randrange(32)), "inplace ai=%d" % rng.randrange(32)):
+                    if pk == "mp":
+                        s.add("mp crypt %d %s %s %d %s" % (p, hexs(d), hexs(rbytes(rng, nb * bs)), nb * bs, opt))
+                    else:
+                        s.add("%s enc %d %s %d %s" % (pk, p, hexs(d), nb * bs, opt))
+                        s.add("%s dec %d %s %d %s" % (pk, p, hexs(d), nb * bs, opt))
+            s.add("%s cleanup %d" % (pk, p))
+            out.append(("%s on %s buffer extents" % (pk, be), s.text()))
+    return out
+
+# ---------------------------------------------------------------- C10
+def gen_c10(rng, tier):
+    """every key length 0..3bs+16 and huge ones, every key-setting entry point; the padded twin must
+    give the same image.  meta: ('same', line, line)"""
+    out = []
+    huge = [2**31 - 1, 2**31, 2**32 - 16, 2**32 - 1]
+    for w in ("128", "64"):
+        bs = BS[w]
+        s = S(); meta = []
+        k = s.new("k" + w, 0x33); k2 = s.new("k" + w, 0x33)
+        t = s.new("t" + w, 0x33); t2 = s.new("t" + w, 0x33)
+        c = s.new("c" + w); c2 = s.new("c" + w); p = s.new("p" + w); p2 = s.new("p" + w)
+        for o in (c, c2): s.add("c%s init %d" % (w, o))
+        for o in (p, p2): s.add("p%s init %d" % (w, o))
+        blk = rbytes(rng, bs)
+        keyed = False
+        for n in list(range(0, 3 * bs + 17)) + huge:
+            for rep in range(1 if tier == "quick" else 3):
+                key = rbytes(rng, min(n, 3 * bs + 16))
+                if rep == 0 and n <= 3 * bs + 16:
+                    key = bytes([0xff]) * n            # high bits set in every word
+                pn = ((n + bs - 1) // bs) * bs
+                pad = key + bytes(max(0, pn - len(key))) if n <= 3 * bs else b""
+                inr = bs <= n <= 3 * bs
+                # plain key schedule
+                s.add("k%s setkey %d %s %d" % (w, k, hexs(key), n))
+                keyed = keyed or inr
+                i1 = s.add("k%s img %d" % (w, k))
+                e1 = s.add("k%s enc %d %s" % (w, k, hexs(blk))) if keyed else i1
+                if inr:
+                    s.add("k%s setkey %d %s %d" % (w, k2, hexs(pad), pn))
+                    i2 = s.add("k%s img %d" % (w, k2)); e2 = s.add("k%s enc %d %s" % (w, k2, hexs(blk)))
+                    meta += [("same", i1, i2), ("same", e1, e2)]
+                # tweaked key schedule
+                s.add("t%s settk %d %s %d" % (w, t, hexs(key), n))
+                i1 = s.add("t%s img %d" % (w, t))
+                if bs <= n <= 2 * bs:
+                    s.add("t%s settk %d %s %d" % (w, t2, hexs(pad), pn))
+                    i2 = s.add("t%s img %d" % (w, t2)); meta.append(("same", i1, i2))
+                # CTR and parallel setters
+                s.add("c%s setkey %d %s %d" % (w, c, hexs(key), n))
+                s.add("c%s setctr %d - 0" % (w, c))
+                x1 = s.add("c%s crypt %d %s %d" % (w, c, hexs(bytes(2 * bs + 1)), 2 * bs + 1))
+                s.add("p%s setkey %d %s %d" % (w, p, hexs(key), n))
+                y1 = s.add("p%s enc %d %s %d" % (w, p, hexs(blk * 9), 9 * bs))
+                if inr:
+                    s.add("c%s setkey %d %s %d" % (w, c2, hexs(pad), pn))
+                    s.add("c%s setctr %d - 0" % (w, c2))
+                    x2 = s.add("c%s crypt %d %s %d" % (w, c2, hexs(bytes(2 * bs + 1)), 2 * bs + 1))
+                    s.add("p%s setkey %d %s %d" % (w, p2, hexs(pad), pn))
+                    y2 = s.add("p%s enc %d %s %d" % (w, p2, hexs(blk * 9), 9 * bs))
+                    meta += [("same", x1, x2), ("same", y1, y2)]
+                if bs <= n <= 2 * bs:
+                    s.add("c%s settk %d %s %d" % (w, c, hexs(key), n)); s.add("c%s setctr %d - 0" % (w, c))
+                    x1 = s.add("c%s crypt %d %s %d" % (w, c, hexs(bytes(bs + 1)), bs + 1))
+                    s.add("c%s settk %d %s %d" % (w, c2, hexs(pad), pn)); s.add("c%s setctr %d - 0" % (w, c2))
+                    x2 = s.add("c%s crypt %d %s %d" % (w, c2, hexs(bytes(bs + 1)), bs + 1))
+                    meta.append(("same", x1, x2))
+                else:
+                    s.add("c%s settk %d %s %d" % (w, c, hexs(key), n))
+        for o in (c, c2): s.add("c%s cleanup %d" % (w, o))
+        for o in (p, p2): s.add("p%s cleanup %d" % (w, o))
+        out.append(("skinny%s key lengths" % w, s.text(), meta))
+    # MANTIS: only 16-byte keys and 5..8 rounds
+    s = S(); meta = []
+    m = s.new("mk", 0x44); c = s.new("mc"); p = s.new("mp")
+    s.add("mc init %d" % c); s.add("mp init %d" % p)
+    for n in list(range(0, 40)) + huge:
+        for r in (0, 1, 4, 5, 6, 7, 8, 9, 12, 2**31, 2**32 - 1) if n == 16 else (rng.choice([4, 5, 8, 9]),):
+            key = rbytes(rng, min(n, 40))
+            s.add("mk setkey %d %s %d %d %d" % (m, hexs(key), n, r, rng.randint(0, 1)))
+            s.add("mk img %d" % m)
+            s.add("mc setkey %d %s %d %d" % (c, hexs(key), n, r))
+            s.add("mc crypt %d %s 9" % (c, hexs(bytes(9))))
+            s.add("mp setkey %d %s %d %d 1" % (p, hexs(key), n, r))
+            s.add("mp crypt %d %s %s 24" % (p, hexs(bytes(24)), hexs(bytes(24))))
+    s.add("mc cleanup %d" % c); s.add("mp cleanup %d" % p)
+    out.append(("mantis key lengths and rounds", s.text(), meta))
+    return out
+
+# ---------------------------------------------------------------- C13
+def gen_c13(rng, tier):
+    """simulated CPUs at every boundary of the selection logic, and the real CPU with many
+    ambient ECX values"""
+    s = S()
+    AVX2, SSE2, OSX, AVX = 1 << 5, 1 << 26, 1 << 27, 1 << 28
+    cpus = []
+    for maxleaf in (0, 1, 6, 7, 0xd, 0x20):
+        for l1ecx in (0, OSX, AVX, OSX | AVX, 0x7ffafbff, 0x7ffafbff & ~OSX, 0x7ffafbff & ~AVX):
+            for l1edx in (0, SSE2, 0xbfebfbff, 0xbfebfbff & ~SSE2):
+                for l7 in ((0, 0), (AVX2, 0), (0, AVX2), (AVX2, AVX2), (0xffffffff & ~AVX2, AVX2)):
+                    for xcr0 in (0, 1, 2, 3, 4, 6, 7, 0xe7):
+                        cpus.append((maxleaf, l1ecx, l1edx, l7[0], l7[1], xcr0, rng.choice([0, AVX2, 0xffffffff])))
+    if tier == "quick":
+        cpus = rng.sample(cpus, 260)
+    k1 = s.new("c128"); k2 = s.new("c64"); k3 = s.new("mc"); p1 = s.new("p128"); p2 = s.new("p64"); p3 = s.new("mp")
+    objs = (("c128", k1), ("c64", k2), ("mc", k3), ("p128", p1), ("p64", p2), ("mp", p3))
+    for cpu in cpus:
+        s.add("cfg cpu %x %x %x %x %x %x %x" % cpu)
+        for amb in (0, 1, rng.getrandbits(32)):
+            s.add("cfg ambient %x" % amb)
+            s.add("probe")
+        kd, o = objs[rng.randrange(6)]
+        s.add("cfg ambient %x" % rng.getrandbits(32))
+        s.add("%s init %d" % (kd, o)); s.add("%s which %d" % (kd, o))
+        if kd[0] in "pm" and kd != "mc":
+            s.add("%s psize %d" % (kd, o))
+        s.add("%s cleanup %d" % (kd, o))
+    # the real CPU, arbitrary register contents before the probes, many inits from different call sites
+    s.add("cfg cpu real")
+    for be in ("v256", "v128", "def"):
+        s.add("cfg backend " + be)
+        for amb in [0, 1, 2, 3, 7, 0x7ffafbff, 0xffffffff] + [rng.getrandbits(32) for _ in range(6)]:
+            s.add("cfg ambient %x" % amb)
+            s.add("probe")
+            for kd, o in objs:
+                s.add("%s init %d" % (kd, o)); s.add("%s which %d" % (kd, o))
+                if kd in ("p128", "p64", "mp"):
+                    s.add("%s psize %d" % (kd, o))
+                s.add("%s cleanup %d" % (kd, o))
+    return [("cpu descriptions and ambient registers", s.text())]
+
+# ---------------------------------------------------------------- C14 / C15 / C16 / C17
+ALLK = ["k128", "t128", "c128", "p128", "k64", "t64", "c64", "p64", "mk", "mc", "mp"]
+def kbs(kind):
+    return 16 if kind.endswith("128") else 8
+
+def invalid_ops(rng, kind, o):
+    """invalid calls of every class for an object of this kind (o may be '-'); all return int"""
+    bs = kbs(kind)
+    big = rng.choice([2**31, 2**32 - 1, 3 * bs + 1, 3 * bs + 16, 1000])
+    small = rng.choice([0, 1, bs - 1])
+    L = []
+    if kind in ("k128", "k64"):
+        L += ["%s setkey %s - %d" % (kind, o, bs), "%s setkey %s %s %d" % (kind, o, hexs(bytes(small)), small),
+              "%s setkey %s 00 %d" % (kind, o, big), "%s setkey - %s %d" % (kind, hexs(bytes(bs)), bs)]
+    elif kind in ("t128", "t64"):
+        L += ["%s settk %s - %d" % (kind, o, bs), "%s settk %s %s %d" % (kind, o, hexs(bytes(small)), small),
+              "%s settk %s 00 %d" % (kind, o, rng.choice([2 * bs + 1, big])), "%s settk - %s %d" % (kind, hexs(bytes(bs)), bs),
+              "%s settweak %s 00 0" % (kind, o), "%s settweak %s 00 %d" % (kind, o, rng.choice([bs + 1, big])),
+              "%s settweak - 00 1" % kind]
+    elif kind in ("c128", "c64"):
+        L += ["%s setkey %s - %d" % (kind, o, bs), "%s setkey %s %s %d" % (kind, o, hexs(bytes(small)), small),
+              "%s setkey %s 00 %d" % (kind, o, big), "%s settk %s - %d" % (kind, o, bs),
+              "%s settk %s 00 %d" % (kind, o, rng.choice([2 * bs + 1, big])),
+              "%s settweak %s 00 0" % (kind, o), "%s settweak %s 00 %d" % (kind, o, rng.choice([bs + 1, big])),
+              "%s setctr %s 00 %d" % (kind, o, rng.choice([bs + 1, big])),
+              "%s crypt %s - 7" % (kind, o), "%s crypt %s 0102 2 outnull" % (kind, o), "%s crypt %s - 0 outnull" % (kind, o),
+              "%s crypt - 00 1" % kind, "%s setkey - %s %d" % (kind, hexs(bytes(bs)), bs), "%s setctr - 00 1" % kind,
+              "%s settweak - 00 1" % kind, "%s settk - %s %d" % (kind, hexs(bytes(bs)), bs), "%s init -" % kind]
+    elif kind in ("p128", "p64"):
+        bad = rng.randint(1, 4 * bs); bad += 1 if bad % bs == 0 else 0
+        L += ["%s setkey %s - %d" % (kind, o, bs), "%s setkey %s %s %d" % (kind, o, hexs(bytes(small)), small),
+              "%s setkey %s 00 %d" % (kind, o, big),
+              "%s enc %s %s %d" % (kind, o, hexs(bytes((bad // bs + 1) * bs)), bad),
+              "%s dec %s %s %d" % (kind, o, hexs(bytes((bad // bs + 1) * bs)), bad),
+              "%s enc - %s %d" % (kind, hexs(bytes(bs)), bs), "%s setkey - %s %d" % (kind, hexs(bytes(bs)), bs), "%s init -" % kind]
+    elif kind == "mk":
+        L += ["mk setkey %s - 16 6 1" % o, "mk setkey %s %s %d 6 1" % (o, hexs(bytes(15)), 15), "mk setkey %s %s 17 6 1" % (o, hexs(bytes(17))),
+              "mk setkey %s %s 16 %d 1" % (o, hexs(bytes(16)), rng.choice([0, 4, 9, 2**32 - 1])),
+              "mk settweak %s %s %d" % (o, hexs(bytes(8)), rng.choice([0, 7, 9, 16, 2**32 - 1])),
+              "mk setkey - %s 16 6 1" % hexs(bytes(16)), "mk settweak - %s 8" % hexs(bytes(8))]
+    elif kind == "mc":
+        L += ["mc setkey %s - 16 6" % o, "mc setkey %s %s 15 6" % (o, hexs(bytes(15))),
+              "mc setkey %s %s 16 %d" % (o, hexs(bytes(16)), rng.choice([0, 4, 9])),
+              "mc settweak %s %s %d" % (o, hexs(bytes(8)), rng.choice([0, 7, 9])),
+              "mc setctr %s 00 %d" % (o, rng.choice([9, big])), "mc crypt %s - 3" % o, "mc crypt %s 01 1 outnull" % o,
+              "mc crypt - 00 1", "mc init -", "mc setkey - %s 16 6" % hexs(bytes(16))]
+    elif kind == "mp":
+        bad = rng.randint(1, 60); bad += 1 if bad % 8 == 0 else 0
+        L += ["mp setkey %s - 16 6 1" % o, "mp setkey %s %s 15 6 0" % (o, hexs(bytes(15))),
+              "mp setkey %s %s 16 %d 1" % (o, hexs(bytes(16)), rng.choice([0, 4, 9])),
+              "mp crypt %s %s %s %d" % (o, hexs(bytes((bad // 8 + 1) * 8)), hexs(bytes((bad // 8 + 1) * 8)), bad),
+              "mp crypt - %s %s 8" % (hexs(bytes(8)), hexs(bytes(8))), "mp init -"]
+    return L
+
+def observe(rng, s, kind, o, keyed):
+    """ops that reveal the state of the object (results later compared against the twin history)"""
+    bs = kbs(kind)
+    if kind in ("k128", "k64", "t128", "t64"):
+        s.add("%s img %d" % (kind, o))
+        if keyed:
+            s.add("%s enc %d %s" % (kind, o, hexs(rbytes(rng, bs))))
+    elif kind == "mk":
+        s.add("mk img %d" % o)
+        if keyed:
+            s.add("mk crypt %d %s" % (o, hexs(rbytes(rng, 8))))
+    elif kind in ("c128", "c64", "mc"):
+        n = rng.randint(0, 5 * bs)
+        s.add("%s which %d" % (kind, o))
+        s.add("%s crypt %d %s %d" % (kind, o, hexs(rbytes(rng, n)), n))
+    else:
+        s.add("%s psize %d" % (kind, o)); s.add("%s which %d" % (kind, o))
+        nb = rng.randint(0, 10)
+        if kind == "mp":
+            s.add("mp crypt %d %s %s %d" % (o, hexs(rbytes(rng, nb * 8)), hexs(rbytes(rng, nb * 8)), nb * 8))
+        else:
+            s.add("%s enc %d %s %d" % (kind, o, hexs(rbytes(rng, nb * bs)), nb * bs))
+
+def valid_setup(rng, s, kind, o):
+    bs = kbs(kind)
+    if kind in ("k128", "k64"):
+        n = rng.randint(bs, 3 * bs); s.add("%s setkey %d %s %d" % (kind, o, hexs(rbytes(rng, n)), n))
+    elif kind in ("t128", "t64"):
+        n = rng.randint(bs, 2 * bs); s.add("%s settk %d %s %d" % (kind, o, hexs(rbytes(rng, n)), n))
+        if rng.random() < 0.6:
+            n = rng.randint(1, bs); s.add("%s settweak %d %s %d" % (kind, o, hexs(rbytes(rng, n)), n))
+    elif kind == "mk":
+        s.add("mk setkey %d %s 16 %d %d" % (o, hexs(rbytes(rng, 16)), rng.randint(5, 8), rng.randint(0, 1)))
+        if rng.random() < 0.5: s.add("mk settweak %d %s 8" % (o, hexs(rbytes(rng, 8))))
+    elif kind in ("c128", "c64", "mc"):
+        for l in ctr_setkey_lines(rng, kind, o): s.add(l)
+        if rng.random() < 0.7:
+            n = rng.randint(0, bs); s.add("%s setctr %d %s %d" % (kind, o, hexs(rbytes(rng, n)), n))
+    elif kind == "mp":
+        s.add("mp setkey %d %s 16 %d %d" % (o, hexs(rbytes(rng, 16)), rng.randint(5, 8), rng.randint(0, 1)))
+    else:
+        n = rng.randint(bs, 3 * bs); s.add("%s setkey %d %s %d" % (kind, o, hexs(rbytes(rng, n)), n))
+
+def gen_c14(rng, tier):
+    """valid histories with invalid calls injected anywhere.  The caller also runs the history with
+    the invalid calls commented out: every other result line must be identical."""
+    out = []
+    reps = 6 if tier == "quick" else 40
+    for rep in range(reps):
+        s = S(); inv_lines = []
+        s.add("cfg backend " + rng.choice(["def", "v128", "v256"]))
+        objs = []
+        for kind in ALLK:
+            o = s.new(kind, 0)
+            objs.append((kind, o, {"live": kind[0] not in "cp" and kind != "mc" and kind != "mp", "keyed": False}))
+        for step in range(60 if tier == "quick" else 200):
+            kind, o, st = objs[rng.randrange(len(objs))]
+            r = rng.random()
+            needs_init = kind in ("c128", "c64", "mc", "p128", "p64", "mp")
+            if r < 0.35:
+                for l in rng.sample(invalid_ops(rng, kind, str(o)), 2):
+                    inv_lines.append(s.add(l))
+                observe(rng, s, kind, o, st["keyed"])
+            elif r < 0.45 and needs_init:
+                if st["live"]:
+                    s.add("%s cleanup %d" % (kind, o)); st["live"] = False; st["keyed"] = False
+                else:
+                    s.add("%s init %d" % (kind, o)); st["live"] = True
+            elif r < 0.5 and needs_init and not st["live"]:
+                # every call on a zeroed / cleaned-up object is an invalid call
+                s0 = S(); valid_setup(rng, s0, kind, o); observe(rng, s0, kind, o, False)
+                for l in s0.lines:
+                    if " which " in l or " psize " in l:
+                        s.add(l)
+                    else:
+                        inv_lines.append(s.add(l))
+            else:
+                if needs_init and not st["live"]:
+                    s.add("%s init %d" % (kind, o)); st["live"] = True
+                valid_setup(rng, s, kind, o); st["keyed"] = True
+                observe(rng, s, kind, o, True)
+        for kind, o, st in objs:
+            if kind in ("c128", "c64", "mc", "p128", "p64", "mp"):
+                s.add("%s cleanup %d" % (kind, o))
+        out.append(("history %d with %d invalid calls" % (rep, len(inv_lines)), s.text(), inv_lines))
+    return out
+
+def gen_c15(rng, tier, failalloc=False):
+    """init / setup / processing / cleanup / repeated cleanup / use after cleanup / re-init over several
+    objects of every kind and back end"""
+    out = []
+    reps = 6 if tier == "quick" else 40
+    for rep in range(reps):
+        s = S()
+        objs = []
+        for kind in ("c128", "c64", "mc", "p128", "p64", "mp"):
+            for j in range(2):
+                objs.append([kind, s.new(kind, 0), False])
+        for step in range(70 if tier == "quick" else 300):
+            if rng.random() < 0.15:
+                s.add("cfg backend " + rng.choice(["def", "v128", "v256"]))
+            o = objs[rng.randrange(len(objs))]
+            kind, oid, live = o
+            r = rng.random()
+            if failalloc and rng.random() < 0.2:
+                s.add("cfg failalloc %d" % rng.choice([1, 1, 2]))
+            if r < 0.25:
+                if not live:
+                    if failalloc and rng.random() < 0.3:
+                        s.add("new %s %d %02x" % (kind, oid, rng.choice([0x00, 0xa5, 0xff, 0x01])))   # any prior content
+                    s.add("%s init %d" % (kind, oid)); s.add("%s which %d" % (kind, oid))
+                    o[2] = None        # unknown until the model tells (failalloc); treated as maybe-live
+                    if not failalloc: o[2] = True
+                else:
+                    observe(rng, s, kind, oid, True)
+            elif r < 0.45:
+                s.add("%s cleanup %d" % (kind, oid)); o[2] = False
+                if rng.random() < 0.5: s.add("%s cleanup %d" % (kind, oid))
+                if rng.random() < 0.3: s.add("%s cleanup -" % kind)
+            elif r < 0.6 and o[2] is False:
+                valid_setup(rng, s, kind, oid); observe(rng, s, kind, oid, False)     # use after cleanup
+            elif o[2] is not False:
+                valid_setup(rng, s, kind, oid); observe(rng, s, kind, oid, True)
+        for kind, oid, live in objs:
+            s.add("%s cleanup %d" % (kind, oid))
+        out.append(("life cycle %d%s" % (rep, " with allocation failures" if failalloc else ""), s.text()))
+    return out
+
+def gen_c16(rng, tier):
+    """fail each allocation request of each init function, each back end, each prior object content"""
+    s = S()
+    for be in ("def", "v128", "v256"):
+        s.add("cfg backend " + be)
+        for kind in ("c128", "c64", "mc", "p128", "p64", "mp"):
+            for fill in (0x00, 0xa5, 0xff, 0x01, rng.randrange(256)):
+                for k in (1, 2):
+                    o = s.new(kind, fill)
+                    s.add("cfg failalloc %d" % k)
+                    s.add("%s init %d" % (kind, o))
+                    s.add("cfg failalloc 0")
+                    s.add("%s which %d" % (kind, o))
+                    # the object must be inert (k = 1) or fully usable (k = 2: nothing failed)
+                    valid_setup(rng, s, kind, o); observe(rng, s, kind, o, True)
+                    s.add("%s cleanup %d" % (kind, o)); s.add("%s cleanup %d" % (kind, o))
+                    # and it can be initialised again
+                    s.add("%s init %d" % (kind, o)); valid_setup(rng, s, kind, o); observe(rng, s, kind, o, True)
+                    s.add("%s cleanup %d" % (kind, o))
+    return [("allocation failure in every init", s.text())] + gen_c15(rng, tier, failalloc=True)
